@@ -1021,3 +1021,77 @@ V(id='c38-benign-coef-rename-snapshot', prop='C38', file='mpmath/functions/rszet
 V(id='c38-benign-new-instance-cache', prop='C38', file='mpmath/functions/functions.py',
   old="        self._misc_const_cache = {}\n", new="        self._misc_const_cache = {}\n        self._extra_cache = dict()\n",
   expect='silent')
+
+# ---------------------------------------------------------------- C29 -------
+V(id='c29-verify-scaled-tol', prop='C29', file='mpmath/calculus/optimization.py',
+  old="        if verify and norm(f(*xl))**2 > tol: # TODO: better condition?",
+  new="        if verify and norm(f(*xl))**2 > tol * max(1, norm(x)):",
+  expect='fire:R-R1:findroot')
+V(id='c29-verify-unsquared', prop='C29', file='mpmath/calculus/optimization.py',
+  old="        if verify and norm(f(*xl))**2 > tol: # TODO: better condition?",
+  new="        if verify and norm(f(*xl)) > tol:",
+  expect='fire:R-R1:findroot')
+V(id='c29-verify-extra-condition', prop='C29', file='mpmath/calculus/optimization.py',
+  old="        if verify and norm(f(*xl))**2 > tol: # TODO: better condition?",
+  new="        if verify and i < maxsteps and norm(f(*xl))**2 > tol:",
+  expect='fire:R-R1:findroot')
+V(id='c29-verify-wrong-point', prop='C29', file='mpmath/calculus/optimization.py',
+  old="        if verify and norm(f(*xl))**2 > tol: # TODO: better condition?",
+  new="        if verify and norm(f(*x0))**2 > tol:",
+  expect='fire:R-R1:findroot')
+V(id='c29-verify-default-off', prop='C29', file='mpmath/calculus/optimization.py',
+  old="def findroot(ctx, f, x0, solver='secant', tol=None, verbose=False, verify=True, **kwargs):",
+  new="def findroot(ctx, f, x0, solver='secant', tol=None, verbose=False, verify=False, **kwargs):",
+  expect='fire:R-R1:findroot')
+V(id='c29-tol-loosened-before-gate', prop='C29', file='mpmath/calculus/optimization.py',
+  old="        if not isinstance(x, (list, tuple, ctx.matrix)):\n            xl = [x]",
+  new="        tol = tol * 4\n        if not isinstance(x, (list, tuple, ctx.matrix)):\n            xl = [x]",
+  expect='fire:R-R1:findroot')
+V(id='c29-bisection-arms-swapped', prop='C29', file='mpmath/calculus/optimization.py',
+  old="            if sign < 0:\n                a = m\n            elif sign > 0:\n                b = m\n                fb = fm",
+  new="            if sign > 0:\n                a = m\n            elif sign < 0:\n                b = m\n                fb = fm",
+  expect='fire:R-R2:Bisection')
+V(id='c29-bisection-stale-fb', prop='C29', file='mpmath/calculus/optimization.py',
+  old="            elif sign > 0:\n                b = m\n                fb = fm", new="            elif sign > 0:\n                b = m",
+  expect='silent')   # fb keeps the sign of f(b) (fm and fb have the same sign here): behaviour-preserving
+V(id='c29-illinois-stale-fa', prop='C29', file='mpmath/calculus/optimization.py',
+  old="                a = b\n                fa = fb\n                b = z\n                fb = fz",
+  new="                a = b\n                b = z\n                fb = fz",
+  expect='fire:R-R2:Illinois')
+V(id='c29-anderson-negative-m', prop='C29', file='mpmath/calculus/optimization.py',
+  old="            m = 1 - fz/fb\n            if m > 0:\n                return m\n            else:\n                return 0.5",
+  new="            return (1 - fz/fb) or 0.5",
+  expect='fire:R-R2:Illinois')
+V(id='c29-pegasus-minus', prop='C29', file='mpmath/calculus/optimization.py',
+  old="            return fb/(fb + fz)", new="            return fb/(fb - fz)",
+  expect='fire:R-R2:Illinois')
+V(id='c29-ridder-wrong-endpoint', prop='C29', file='mpmath/calculus/optimization.py',
+  old="            if fx4 * fx2 < 0: # root in [x4, x2]", new="            if fx4 * fx1 < 0:",
+  expect='fire:R-R2:Ridder')
+V(id='c29-illinois-test-nonstrict-other-side', prop='C29', file='mpmath/calculus/optimization.py',
+  old="            if fz * fb < 0: # root in [z, b]", new="            if fz * fa < 0:",
+  expect='fire:R-R2:Illinois')
+V(id='c29-polyroots-filtered', prop='C29', file='mpmath/calculus/polynomials.py',
+  old="        return [+r for r in roots]", new="        return [+r for r in roots if r]",
+  expect='fire:R-P1:polyroots')
+V(id='c29-polyroots-no-gate', prop='C29', file='mpmath/calculus/polynomials.py',
+  old="        if abs(max(err)) >= tol:\n            raise ctx.NoConvergence(", new="        if 0:\n            raise ctx.NoConvergence(",
+  expect='fire:R-P2:polyroots')
+V(id='c29-benign-sign-test-form', prop='C29', file='mpmath/calculus/optimization.py',
+  old="            if fz * fb < 0: # root in [z, b]", new="            if (fz < 0) != (fb < 0):",
+  expect='silent')
+V(id='c29-benign-anderson-ifexp', prop='C29', file='mpmath/calculus/optimization.py',
+  old="            m = 1 - fz/fb\n            if m > 0:\n                return m\n            else:\n                return 0.5",
+  new="            m = 1 - fz/fb\n            return m if m > 0 else 0.5",
+  expect='silent')
+V(id='c29-benign-residual-temp', prop='C29', file='mpmath/calculus/optimization.py',
+  old="        if verify and norm(f(*xl))**2 > tol: # TODO: better condition?",
+  new="        residual = norm(f(*xl))**2\n        if verify and residual > tol:",
+  expect='silent')
+V(id='c29-benign-gate-reversed-compare', prop='C29', file='mpmath/calculus/optimization.py',
+  old="        if verify and norm(f(*xl))**2 > tol: # TODO: better condition?",
+  new="        if verify and not (norm(f(*xl))**2 <= tol):",
+  expect='silent')
+V(id='c29-benign-bisection-sign-call', prop='C29', file='mpmath/calculus/optimization.py',
+  old="            sign = fm * fb", new="            sign = self.ctx.sign(fm) * self.ctx.sign(fb)",
+  expect='silent')
